@@ -441,3 +441,11 @@ func (t *T) Atomic(fn func()) {
 	defer func() { t.atomic-- }()
 	fn()
 }
+
+// CurrentID returns the id of the thread that is running now (-1 outside thread execution).
+func (x *Execution) CurrentID() int {
+	if x.cur == nil || x.inTeardown {
+		return -1
+	}
+	return x.cur.ID
+}
